@@ -50,6 +50,8 @@ func c08Orbit(r rune) []rune {
 
 func TestVerifC08(t *testing.T) {
 	r := mc.NewReport("C08")
+	// this harness holds one 30 MB shard and small results: a case that needs gigabytes does not terminate
+	r.SetMemLimitMB(6144)
 	// all runes with non-trivial folding, grouped by orbit
 	seen := map[rune]bool{}
 	var orbits [][]rune
